@@ -391,6 +391,107 @@ func (b *bracket) findFlagIdiom() {
 	})
 }
 
+// flagDefer: the deferred, flag-guarded release idiom `defer func() { if [!]flag { release() } }()`.
+type flagDefer struct {
+	v   *types.Var
+	pos bool // true: releases when the flag is true
+}
+
+// findFlagDefers lists the defer statements of f's own body that have the shape above for a release call.
+func findFlagDefers(f *FuncInfo, releases func(*ast.CallExpr) bool) map[*ast.DeferStmt]flagDefer {
+	info := f.Pkg.TypesInfo
+	out := map[*ast.DeferStmt]flagDefer{}
+	walkOwn(f.Body(), func(n ast.Node) {
+		d, ok := n.(*ast.DeferStmt)
+		if !ok {
+			return
+		}
+		lit, ok := d.Call.Fun.(*ast.FuncLit)
+		if !ok || len(lit.Body.List) != 1 {
+			return
+		}
+		is, ok := lit.Body.List[0].(*ast.IfStmt)
+		if !ok || is.Else != nil || is.Init != nil {
+			return
+		}
+		pos := true
+		cond := ast.Unparen(is.Cond)
+		if u, ok := cond.(*ast.UnaryExpr); ok && u.Op == token.NOT {
+			pos = false
+			cond = ast.Unparen(u.X)
+		}
+		v, ok := objOfIdent(info, cond).(*types.Var)
+		if !ok || v.IsField() {
+			return
+		}
+		rel := false
+		ast.Inspect(is.Body, func(m ast.Node) bool {
+			if call, ok := m.(*ast.CallExpr); ok && releases(call) {
+				rel = true
+			}
+			return true
+		})
+		if rel {
+			out[d] = flagDefer{v, pos}
+		}
+	})
+	return out
+}
+
+// flagDisarm reports what statement nd does to the guard flags in fds: +1 when it may switch a guarded release off
+// (the flag is set to the value under which the closure does nothing, or to something that is not a constant), -1
+// when it switches it on, 0 when it does not touch a flag.
+func flagDisarm(info *types.Info, nd ast.Node, fds map[*ast.DeferStmt]flagDefer) int {
+	res := 0
+	set := func(o types.Object, val ast.Expr) {
+		for _, fd := range fds {
+			if o == nil || o != types.Object(fd.v) {
+				continue
+			}
+			isTrue, known := false, false
+			if val == nil {
+				known = true // zero value
+			} else if tv := info.Types[val]; tv.Value != nil {
+				isTrue, known = tv.Value.String() == "true", true
+			}
+			if known && isTrue == fd.pos {
+				res = -1
+			} else {
+				res = 1
+			}
+		}
+	}
+	switch x := nd.(type) {
+	case *ast.AssignStmt:
+		if len(x.Lhs) == len(x.Rhs) {
+			for i, l := range x.Lhs {
+				if id, ok := ast.Unparen(l).(*ast.Ident); ok {
+					o := info.Defs[id]
+					if o == nil {
+						o = info.Uses[id]
+					}
+					set(o, x.Rhs[i])
+				}
+			}
+		}
+	case *ast.DeclStmt:
+		if gd, ok := x.Decl.(*ast.GenDecl); ok {
+			for _, sp := range gd.Specs {
+				if vs, ok := sp.(*ast.ValueSpec); ok {
+					for i, nm := range vs.Names {
+						var val ast.Expr
+						if i < len(vs.Values) {
+							val = vs.Values[i]
+						}
+						set(info.Defs[nm], val)
+					}
+				}
+			}
+		}
+	}
+	return res
+}
+
 // ---- manager typestate ----
 
 func ruleC10ManagerTypestate(c *Ctx) {
@@ -422,13 +523,26 @@ func ruleC10ManagerTypestate(c *Ctx) {
 		}
 		n++
 		fl := c.flow(f)
-		const held, deferred = 1, 2
+		const held, deferred, guarded, disarmed = 1, 2, 4, 8
+		fds := findFlagDefers(f, func(call *ast.CallExpr) bool {
+			se, ok := ast.Unparen(call.Fun).(*ast.SelectorExpr)
+			return ok && selField(info, se.X) == phys && se.Sel.Name == "Unlock"
+		})
 		an := &Analysis{Must: false, Entry: 0, Node: func(nd ast.Node, s State) State {
 			if d, ok := nd.(*ast.DeferStmt); ok {
+				if _, ok := fds[d]; ok {
+					return s | guarded
+				}
 				if se, ok := ast.Unparen(d.Call.Fun).(*ast.SelectorExpr); ok && selField(info, se.X) == phys && se.Sel.Name == "Unlock" {
 					return s | deferred
 				}
 				return s
+			}
+			switch flagDisarm(info, nd, fds) {
+			case 1:
+				s |= disarmed
+			case -1:
+				s &^= disarmed
 			}
 			for _, call := range callsIn(nd) {
 				if se, ok := ast.Unparen(call.Fun).(*ast.SelectorExpr); ok && selField(info, se.X) == phys {
@@ -452,7 +566,7 @@ func ruleC10ManagerTypestate(c *Ctx) {
 				pos = ret.Pos()
 			}
 			isErr := ret != nil && !returnsNil(info, ret)
-			stillHeld := s&held != 0 && s&deferred == 0
+			stillHeld := s&held != 0 && s&deferred == 0 && !(s&guarded != 0 && s&disarmed == 0)
 			construct := fmt.Sprintf("return#%d", ord)
 			switch {
 			case locks && !unlocks || locks && unlocks:
@@ -521,12 +635,25 @@ func ruleC10LockPairs(c *Ctx) {
 				unlockName = "RUnlock"
 			}
 			fl := c.flow(f)
+			fds := findFlagDefers(f, func(call *ast.CallExpr) bool {
+				m, o := mutexField(info, call)
+				return m == mv && o == unlockName
+			})
 			an := &Analysis{Must: false, Entry: 0, Node: func(nd ast.Node, s State) State {
 				if d, ok := nd.(*ast.DeferStmt); ok {
+					if _, ok := fds[d]; ok {
+						return s | 4
+					}
 					if m, o := mutexField(info, d.Call); m == mv && o == unlockName {
 						return s&^1 | 2
 					}
 					return s
+				}
+				switch flagDisarm(info, nd, fds) {
+				case 1:
+					s |= 8
+				case -1:
+					s &^= 8
 				}
 				for _, call := range callsIn(nd) {
 					m, o := mutexField(info, call)
@@ -546,7 +673,7 @@ func ruleC10LockPairs(c *Ctx) {
 			fl.solve(an)
 			leak := ""
 			fl.exits(an, func(ret *ast.ReturnStmt, ord int, s State) {
-				if s&1 != 0 && leak == "" {
+				if s&1 != 0 && !(s&4 != 0 && s&8 == 0) && leak == "" {
 					p := f.Body().Rbrace
 					if ret != nil {
 						p = ret.Pos()
